@@ -1,5 +1,6 @@
 //! Build scenarios: lists of option/payload combinations driven through the public QRBuilder API.
-use crate::common::BuildSpec;
+use crate::common::*;
+use serde_json::json;
 use crate::gen::*;
 use rand::Rng;
 
@@ -484,6 +485,51 @@ pub fn structured(seed: u64, thorough: bool) -> Vec<BuildSpec> {
         out.push(spec(t.clone(), ecl, None, None, mask, format!("structured:{}", i % 10)));
         if i % 5 == 0 { out.push(spec(t, ecl, Some(2), None, mask, format!("structured-byte:{}", i % 10))); }
     }
+    // every group the two packed modes can form: all 1000 digit triples and all 2025 alphanumeric pairs, at every alignment
+    // (one or two leading characters shift the grouping), plus every final incomplete group (1 or 2 digits, 1 alphanumeric)
+    let triples: Vec<u8> = (0..1000usize).flat_map(|t| format!("{:03}", (t * 7) % 1000).into_bytes()).collect();
+    let pairs: Vec<u8> = (0..2025usize).flat_map(|p| { let q = (p * 13) % 2025; [ALNUM[q / 45], ALNUM[q % 45]] }).collect();
+    for shift in 0..3usize {
+        let mut t: Vec<u8> = b"58"[..shift].to_vec(); t.extend_from_slice(&triples);
+        out.push(spec(t, Some(0), None, None, Some(shift), format!("allgroups:num{shift}")));
+        if shift < 2 {
+            let mut a: Vec<u8> = b"K"[..shift].to_vec(); a.extend_from_slice(&pairs);
+            out.push(spec(a, Some(0), None, None, None, format!("allgroups:alnum{shift}")));
+        }
+    }
+    let ends: Vec<Vec<u8>> = (0..100usize).map(|d| format!("123{:02}", d).into_bytes()).chain((0..10usize).map(|d| format!("123{d}").into_bytes()))
+        .chain((0..45usize).map(|c| vec![b'A', b'B', ALNUM[c]])).collect();
+    for (i, e) in ends.into_iter().enumerate() {
+        if !thorough && i % 3 != (seed % 3) as usize { continue; }
+        out.push(spec(e, Some(i % 4), None, None, None, "allgroups:tail".to_string()));
+    }
     let _ = &mut r;
     out
+}
+
+/// Inputs whose LENGTH is near a power-of-two boundary of the integer types a length computation may pass through
+/// (8, 10 and 11 bits per character times the length crossing 2^32; 2^31; 2^32 itself): far beyond any capacity, the documented
+/// outcome is the data-too-big error.  Built without any copy of the input (one allocation, moved into the builder); the event
+/// carries a saturated representative (the expected outcome depends on the length only through "beyond every capacity") and the
+/// true length as text.
+pub fn giant(sink: &mut Sink, thorough: bool) {
+    let mut lens: Vec<(u64, u8)> = vec![(390_451_573, b'7'), (429_496_730, b'A'), (536_870_912, 0xA5)];
+    if thorough { lens.extend_from_slice(&[(357_913_942, b'7'), (1_431_655_766, b'7'), (2_147_483_648, b'Z'), (4_294_967_301, b'7'), (4_294_967_296 + 7_000, 0x41)]); }
+    for (i, (n, byte)) in lens.into_iter().enumerate() {
+        let Ok(n) = usize::try_from(n) else { continue };
+        for forced in 0..2usize {
+            if forced == 1 && i % 2 == 1 { continue; }
+            let (ecl, ver, mode) = if forced == 1 { (Some(0usize), Some(40usize), Some(2usize)) } else { (None, None, None) };
+            let out = guarded(300, move || {
+                let mut b = fast_qr::QRBuilder::new(vec![byte; n]);
+                if let Some(e) = ecl { b.ecl(LEVELS[e]); }
+                if let Some(v) = ver { b.version(version(v)); }
+                if let Some(m) = mode { b.mode(MODES[m]); }
+                match b.build() { Ok(qr) => { let mut o = qr_json(&qr); if let Some(m) = o.as_object_mut() { m.remove("vals"); m.remove("types"); } o }, Err(e) => json!({"kind": "Err", "why": err_name(&e)}) }
+            }).unwrap_or_else(|k| json!({"kind": k.split(':').next().unwrap_or("Panic"), "why": k}));
+            let id = sink.id();
+            sink.emit(&json!({"ev": "Build", "id": id, "tag": format!("giant:{i}"), "grp": 0, "lite": 1, "input": [], "rep": [byte, 1_000_000], "true_len": n.to_string(),
+                "opts": {"ecl": ecl.map(|e| LEVEL_NAMES[e]).unwrap_or("none"), "mode": mode.map(|m| m as i64).unwrap_or(-1), "version": ver.map(|v| v as i64).unwrap_or(-1), "mask": -1}, "out": out}));
+        }
+    }
 }
